@@ -47,7 +47,7 @@ func TestGovcBoundedC07Augments(t *testing.T) {
 				break
 			}
 			var targets []*gxNode
-			for _, r := range ex.roots {
+			for _, r := range ex.rootList() {
 				gxCollect(r, func(x *gxNode) bool { return x.parent != nil && gxCanHaveChildren(x) }, &targets)
 			}
 			if len(targets) == 0 {
@@ -98,7 +98,7 @@ func TestGovcBoundedC07Augments(t *testing.T) {
 			ex := g.model()
 			am := g.mods[rng.Intn(len(g.mods))]
 			var leaves, dirs []*gxNode
-			for _, r := range ex.roots {
+			for _, r := range ex.rootList() {
 				gxCollect(r, func(x *gxNode) bool { return x.kind == "leaf" }, &leaves)
 				gxCollect(r, func(x *gxNode) bool { return x.kind == "container" && len(x.kids) > 0 && x.parent != nil }, &dirs)
 			}
@@ -123,7 +123,7 @@ func TestGovcBoundedC07Augments(t *testing.T) {
 		ex := &gxExpander{mods: g.mods}
 		ex.expandAll()
 		missing := ex.applyAugments()
-		for _, r := range ex.roots {
+		for _, r := range ex.rootList() {
 			r.fixChoices()
 		}
 		invalid := len(ex.errs) > 0 || len(missing) > 0
